@@ -221,6 +221,12 @@ def generate(rng, tier, run):
             for op in c['ops']:
                 if rng.random() < 0.15:
                     op['real_parse'] = True
+    # a share of the statements goes through Connection.execute() (the implicit cursor), with a scheduling
+    # point between execute and fetch: whatever the connection keeps for it is shared by the threads
+    for c in clients:
+        for op in c['ops']:
+            if rng.random() < 0.25:
+                op['via'] = 'conn_execute'
     # line pre-emption in most thorough runs and in a share of the quick runs
     trace = rng.random() < (0.7 if big else 0.12)
     if trace and big and rng.random() < 0.06:
@@ -241,10 +247,15 @@ def generate(rng, tier, run):
 
 # ---------------------------------------------------------------------------
 
-def outcome(conn, arg, params):
+def outcome(conn, arg, params, via=None, between=None):
     try:
-        cur = conn.cursor()
-        cur.execute(arg, params)
+        if via == 'conn_execute':
+            cur = conn.execute(arg, params)
+            if between is not None:
+                between()
+        else:
+            cur = conn.cursor()
+            cur.execute(arg, params)
         desc = cur.description
         rows = cur.fetchall()
         return ('ok', [[c.name, core.type_name(c.datatype)] for c in desc], canon_rows(rows))
@@ -366,7 +377,7 @@ def execute(case, keep_log=False):
                     S.stmt_of[tid] = text
                     S.as_text[tid] = isinstance(arg, str)
                     S.arm(tid, op.get('fault'))
-                    got = outcome(conn, arg, params)
+                    got = outcome(conn, arg, params, op.get('via'), lambda: S.yield_point(('op', 'fetch')))
                     fired = S.disarm(tid)
                     S.inflight[tid] = None
                     S.stmt_of[tid] = None
